@@ -178,6 +178,8 @@ class EasyMP4Tags(DictMixin, Tags):
         cls.RegisterKey(key, getter, setter, deleter)
 
     def __getitem__(self, key):
+        if not isinstance(key, str):
+            raise EasyMP4KeyError("%r is not a valid key" % (key,))
         key = key.lower()
         func = dict_match(self.Get, key)
         if func is not None:
@@ -186,6 +188,8 @@ class EasyMP4Tags(DictMixin, Tags):
             raise EasyMP4KeyError("%r is not a valid key" % key)
 
     def __setitem__(self, key, value):
+        if not isinstance(key, str):
+            raise EasyMP4KeyError("%r is not a valid key" % (key,))
         key = key.lower()
 
         if isinstance(value, str):
@@ -198,6 +202,8 @@ class EasyMP4Tags(DictMixin, Tags):
             raise EasyMP4KeyError("%r is not a valid key" % key)
 
     def __delitem__(self, key):
+        if not isinstance(key, str):
+            raise EasyMP4KeyError("%r is not a valid key" % (key,))
         key = key.lower()
         func = dict_match(self.Delete, key)
         if func is not None:
